@@ -527,6 +527,25 @@ class Executor(object):
                 return
             name, spec = allowed
             scope = self.spec_scope(st, dict(pre.env, exc=out.value))
+            if spec.get("variants"):
+                # alternatives for this exit (e.g. transport still open / transport died): the one whose exact
+                # field values (`sets`) hold on this path is the one checked
+                chosen = None
+                for var in spec["variants"]:
+                    ok = True
+                    for loc, expr in var.get("sets", {}).items():
+                        tgt, fname = loc.rsplit(".", 1)
+                        o, _ = self.spec.evaluate(self, tgt, pre, pre, scope)
+                        want, _ = self.spec.evaluate(self, expr, pre, pre, scope)
+                        have = self.heap_get(st, o, fname)
+                        same = ops.identical(have, want) if (isinstance(have, HeapRef) or isinstance(want, HeapRef) or
+                                                             not (is_sym(have) or is_sym(want))) else None
+                        if same is not True:
+                            ok = False
+                    if ok:
+                        chosen = var
+                        break
+                spec = dict(spec, **(chosen or spec["variants"][0]))
             if spec.get("only_when"):
                 z, facts = self.spec_bool(st, pre, spec["only_when"], scope)
                 self.oblige(st, "exc:%s.only_when@%s" % (name, lab), z, props=spec.get("props", ()), kind="exc",
@@ -615,6 +634,8 @@ class Executor(object):
         parts = m.split(".")
         v = st.env.get(parts[0], st.ghost.get(parts[0]))
         for p in parts[1:-1]:
+            if not isinstance(v, Obj):
+                return set()
             v = self.heap_get(st, v, p)
         if len(parts) == 1:
             if isinstance(v, Obj) and v.kind == "joinlist":
@@ -627,7 +648,9 @@ class Executor(object):
                 return {(v.oid, f) for f in self.all_fields(v)}
             return set()
         if not isinstance(v, Obj):
-            raise CheckerError("modifies entry %r does not denote an object" % m)
+            if v is None or is_sym(v):
+                raise CheckerError("modifies entry %r does not denote an object" % m)
+            return set()        # the path ends at a constant (e.g. a closed stream's ClosedFile): nothing to modify there
         if parts[-1] == "*":
             return {(v.oid, f) for f in self.all_fields(v)}
         tgt = self.heap_get(st, v, parts[-1])
@@ -1809,6 +1832,14 @@ class Executor(object):
             return v
         if sort == "any":
             return v
+        if sort.startswith("const:"):
+            want = self.spec.eval_const(sort[6:])
+            same = ops.eq(v, want)
+            if same is not True:
+                self.oblige(st, "pre-type:%s@L%d[%s]" % (what, self.rel_line(node), self.path_label(st)), same,
+                            props=self.all_props(self.cur[1]), kind="pre",
+                            note="this behaviour of the callee is specified for the argument value %r only" % (want,))
+            return want
         if sort == "none" and v is None:
             return v
         if sort == "real" and ops.is_reallike(v):
@@ -1880,7 +1911,7 @@ class Executor(object):
             yield st.label("L%d:arity" % ln), Raised(TypeError, ExcObj(TypeError))
             return
         bname = hint.get("behaviour")
-        if bname is None and c.dispatch:
+        if bname is None and c.dispatch and not getattr(self, "_dispatch_forced", None):
             for cond, bn in c.dispatch:
                 if cond is None:
                     bname = bn
@@ -1894,10 +1925,24 @@ class Executor(object):
                     elif z3.is_false(t):
                         t = False
                     else:
-                        raise Unsupported("behaviour dispatch of %s on a symbolic condition" % c.target)
+                        # the selecting condition is not decided on this path: one path per alternative
+                        yes = st.fork().assume(t).label("L%d:%s" % (ln, cond))
+                        if self.feasible(yes):
+                            self._dispatch_forced = bn
+                            try:
+                                for r in self._apply_contract(yes, c, f, args, kwargs, node):
+                                    yield r
+                            finally:
+                                self._dispatch_forced = None
+                        st.assume(z3.Not(t))
+                        self.call_ordinals[name] = self.call_ordinals.get(name, 1) - 1
+                        continue
                 if t:
                     bname = bn
                     break
+        if getattr(self, "_dispatch_forced", None):
+            bname = self._dispatch_forced
+            self._dispatch_forced = None
         if bname is None:
             bname = caller_beh.name if caller_beh.name in c.behaviours else "default"
         if bname not in c.behaviours:
@@ -1949,8 +1994,10 @@ class Executor(object):
                 classes = [k for k in classes if not (k in seen or seen.append(k))]
             else:
                 classes = [ecls0]
-            for ecls in classes:
-                b = st.fork().label("L%d:%s raises %s" % (ln, name, ecls.__name__))
+            variants = [dict(spec, **v) for v in spec["variants"]] if spec.get("variants") else [spec]
+            for ecls, spec in [(k, v) for k in classes for v in variants]:
+                b = st.fork().label("L%d:%s raises %s%s" % (ln, name, ecls.__name__,
+                                                           (" [%s]" % spec["label"]) if spec.get("label") else ""))
                 self.havoc_modifies(b, env, spec.get("modifies", beh.modifies), "%s@L%d" % (name, ln))
                 if beh.clock:
                     self.clock_advance(b, "%s@L%d" % (name, ln))
